@@ -17,7 +17,7 @@ Init == l = 1 /\ s = <<>> /\ visited = {}
 IsEvent(e) == l <= Len(Log) /\ Log[l].e = e /\ l' = l + 1
 
 TBegin == /\ IsEvent("Begin")
-          /\ (IF l = 1 THEN TRUE ELSE Log[l - 1].e = "End")
+          /\ (IF l = 1 THEN TRUE ELSE Log[l - 1].e \in {"End", "Stopped"})
           /\ s' = Log[l].ext /\ visited' = {}
 
 TVisit == /\ IsEvent("Visit")
@@ -31,10 +31,17 @@ TEnd == /\ IsEvent("End")
         /\ Cardinality(visited) = Product(s)
         /\ UNCHANGED <<s, visited>>
 
-Next == TBegin \/ TVisit \/ TEnd
+\* a traversal of a box too large to finish, stopped by the callback after k invocations: nd_map must not have returned by
+\* itself, and the k invocations (each checked by TVisit) named k distinct tuples of the box
+TStopped == /\ IsEvent("Stopped")
+            /\ Log[l].returned = FALSE
+            /\ Log[l].k > 0 /\ Cardinality(visited) = Log[l].k
+            /\ UNCHANGED <<s, visited>>
+
+Next == TBegin \/ TVisit \/ TEnd \/ TStopped
 Spec == Init /\ [][Next]_vars
 
-Accepted == IF TLCGet("stats").diameter - 1 = Len(Log) /\ Log[Len(Log)].e = "End"
+Accepted == IF TLCGet("stats").diameter - 1 = Len(Log) /\ Log[Len(Log)].e \in {"End", "Stopped"}
             THEN TRUE
             ELSE /\ PrintT(<<"TRACE-REJECTED matched-prefix", TLCGet("stats").diameter - 1, "of", Len(Log)>>)
                  /\ FALSE
